@@ -202,6 +202,12 @@ package agent
 //@ at[C04] call Encrypt assert $0 == fts.sessionKey && fts.sessionKey != nil
 //@ at[C04] call WriteStreamData#0 assert $3 == c04meta
 //@ at[C04] call WriteStreamData#1 assert $3 == ct
+//@ requires[C26] fts.Meta != nil ==> len(a.fileStreamHandler.cfg.AllowedPaths) > 0 && !(forall j in 0..len(a.fileStreamHandler.cfg.AllowedPaths): !allowedBy(a.fileStreamHandler.cfg.AllowedPaths[j], fpNorm(fts.Meta.Path)))
+//@ requires[C26] fts.Meta != nil ==> (!(forall j in 0..len(a.fileStreamHandler.cfg.AllowedPaths): !allowedBy(a.fileStreamHandler.cfg.AllowedPaths[j], fsReal(fsEpoch, fts.Meta.Path)))) && (!(forall j in 0..len(a.fileStreamHandler.cfg.AllowedPaths): !allowedBy(a.fileStreamHandler.cfg.AllowedPaths[j], fsReal(fsEpoch, fpClean(fts.Meta.Path)))))
+//@ at[C26] call os.Stat assert $0 == fts.Meta.Path && len(a.fileStreamHandler.cfg.AllowedPaths) > 0 && !(forall j in 0..len(a.fileStreamHandler.cfg.AllowedPaths): !allowedBy(a.fileStreamHandler.cfg.AllowedPaths[j], fpNorm($0)))
+//@ at[C26] call os.Stat assert !(forall j in 0..len(a.fileStreamHandler.cfg.AllowedPaths): !allowedBy(a.fileStreamHandler.cfg.AllowedPaths[j], fsReal(fsEpoch, $0)))
+//@ at[C26] call ReadFileForDownloadAtOffset assert $1 == fts.Meta.Path
+//@ at[C26] call ReadFileForDownload assert $1 == fts.Meta.Path
 
 // Transit: a relayed STREAM_DATA frame carries the received payload and flags unchanged.
 
@@ -957,3 +963,50 @@ package agent
 // C04: a session key is never wiped while tunnel code of this package may still seal data with it (a wiped key is
 // all-zero, i.e. known to every transit): no function of this package zeroes a session key.
 //@ census[C04] crypto.(*SessionKey).Zero in -
+// ---- C26: the agent's use of the file-transfer handler ----
+//
+// (predicates and the file-system view: internal/filetransfer contracts and /verif/contracts/extern/fs.spec)
+// A download is started only for the stream whose metadata ValidateDownloadMetadata just
+// accepted; the temporary file that later enables completeFileUpload is created only after
+// ValidateUploadMetadata accepted the metadata of this very stream, and TempFile is written nowhere else
+// (the same scan for the exported field Meta is defeated by an unrelated field of that name in package shell).
+// sendFileDownload's first precondition (lexical facts) is discharged at the go statement; its
+// second one and the precondition of WriteUploadedFile (the resolved location is allowed) are not.
+
+//@ func (*Agent).handleFileTransferStreamData
+//@ prop C26
+//@ modifies *, c26resolved
+//@ after call ValidateUploadMetadata let upErr = $ret
+//@ at call os.CreateTemp assert upErr == nil
+//@ after call ValidateDownloadMetadata let dnErr = $ret
+//@ at call sendFileDownload assert dnErr == nil && $1 == fts
+//@ at call completeFileUpload assert fts.IsUpload && fts.TempFile != nil && $1 == fts
+//@ at call ValidateUploadMetadata assert $1 == fts.Meta && $0 == a.fileStreamHandler
+//@ at call ValidateDownloadMetadata assert $1 == fts.Meta && $0 == a.fileStreamHandler
+
+// (the C26 clauses of sendFileDownload are in its existing block above, tagged [C26])
+
+//@ func (*Agent).completeFileUpload
+//@ prop C26
+//@ modifies *, fsEpoch
+//@ at call WriteUploadedFile assert $1 == fts.Meta.Path && fts.TempFile != nil
+
+//@ func (*Agent).BrowseFiles
+//@ prop C26
+//@ modifies *, fsEpoch
+
+//@ fieldwritesonly[C26] fileTransferStream.TempFile: (*Agent).handleFileTransferStreamData
+//@ census[C26] (*Agent).sendFileDownload in (*Agent).handleFileTransferStreamData
+//@ census[C26] (*Agent).completeFileUpload in (*Agent).handleFileTransferStreamData
+//@ census[C26] WriteUploadedFile in (*Agent).completeFileUpload
+//@ census[C26] ReadFileForDownload in (*Agent).sendFileDownload
+//@ census[C26] ReadFileForDownloadAtOffset in (*Agent).sendFileDownload
+//@ census[C26] ValidateUploadMetadata in (*Agent).handleFileTransferStreamData
+//@ census[C26] ValidateDownloadMetadata in (*Agent).handleFileTransferStreamData
+//@ census[C26] Browse in (*Agent).BrowseFiles
+//@ census[C26] HasPartialFile in -
+//@ census[C26] CreatePartialFile in -
+//@ census[C26] OpenPartialFileForAppend in -
+//@ census[C26] FinalizePartial in -
+//@ census[C26] CleanupPartial in -
+//@ census[C26] UpdatePartialProgress in -
